@@ -250,7 +250,55 @@ def gen_ctors(thorough, rnd):
     return out
 
 
+
+# ------------------------------------------------------------------ multichannel envelopes
+def gen_mc(thorough, rnd):
+    """entries of levels / times / curves that are lists of per-channel values (names, numbers, mixed)"""
+    out = []
+    L = [Z, ONE, [-1, 2], [1, 2], [2, 1]]
+    T = [[3, 8], ONE, [1, 2], [1, 4]]
+    C = ALL_CURVES[:-1]
+
+    def entry(pool, p_list, maxlen=3):
+        if rnd.random() < p_list:
+            return [rnd.choice(pool) for _ in range(rnd.randint(1, maxlen))]
+        return [rnd.choice(pool)]
+
+    def one(n, pl, pt, pc, bad=False):
+        lv = [entry(L, pl) for _ in range(n + 1)]
+        tm = [entry(T, pt) for _ in range(rnd.randint(1, n))]
+        cvs = [entry(C, pc) for _ in range(rnd.randint(1, n))]
+        if bad:
+            e = rnd.choice(cvs)
+            e[rnd.randrange(len(e))] = cv('foo')
+        sc = dict(lv=[rnd.randrange(2) for _ in lv], tm=[rnd.randrange(2) for _ in tm], cv=[rnd.randrange(2) for _ in cvs])
+        rel = [rnd.randrange(n)] if rnd.random() < 0.3 else []
+        d = case('mc', lv=lv, tm=tm, cv=cvs, rel=rel, loop=[], off=Z, sc=sc, fl=rnd.randrange(2))
+        ev = [dict(n='fmt')]
+        if rnd.random() < (0.5 if thorough else 0.25):
+            ev.append(dict(n='ugen', ctl=[ONE, ONE, Z, ONE, Z]))
+        if not bad:
+            full = [tm[i % len(tm)] for i in range(n)]
+            if all(len(e) == 1 for e in full):       # evaluation times from the (single) time line
+                qs = queries([ticks(e[0]) for e in full], 0)
+            else:
+                qs = [0, 8, 24, 40, 64, 96, 200]
+            ev += [dict(n='at', t=q) for q in qs[:8]]
+        d['ev'] = ev
+        return d
+    # systematic: exactly one kind of entry is a list, then all mixed
+    reps = 120 if thorough else 30
+    for n in (1, 2, 3):
+        for pl, pt, pc in ((1, 0, 0), (0, 1, 0), (0, 0, 1), (0.5, 0.5, 0.5), (0, 0, 0.7)):
+            for _ in range(reps):
+                out.append(one(n, pl, pt, pc))
+    for _ in range(40 if thorough else 10):
+        out.append(one(rnd.randint(1, 3), 0.3, 0.3, 0.8, bad=True))
+    return out
+
 def nontrivial(c):
+    if c['c'] == 'mc':
+        return True
     n = len(c['lv']) - 1
     return c['c'] != 'new' or len(c['tm']) < n or len(c['cv']) < n or bool(c['rel']) or bool(c['loop']) \
         or any(x['nm'] != 'lin' for x in c['cv'])
@@ -271,7 +319,7 @@ def run_cases(ctx, cases):
 
 def describe(t):
     keep = {k: t[k] for k in ('c', 'lv', 'tm', 'cv', 'rel', 'loop', 'off', 'p', 'pts', 'fl') if t.get(k) not in ([], None)}
-    for k in ('dflt', 'cv_none', 'scalar_cv', 'scalar_tm'):
+    for k in ('dflt', 'cv_none', 'scalar_cv', 'scalar_tm', 'sc'):
         if t.get(k):
             keep[k] = t[k]
     return keep
@@ -630,6 +678,8 @@ def run(ctx):
     # 1. design model: every envelope the constructors build from the constant sets satisfies the laws
     r = ctx.model_check('Env', 'Env.cfg', require_cover=acts, timeout=900)
     ctx.expect_ok(r, 'Env laws (quick constants)')
+    r = ctx.model_check('EnvMC', 'EnvMC_thorough.cfg' if thorough else 'EnvMC.cfg', require_cover=('Build',), timeout=900)
+    ctx.expect_ok(r, 'multichannel expansion laws')
     if thorough:
         r = ctx.model_check('Env', 'Env_thorough.cfg', require_cover=acts, timeout=1500)
         ctx.expect_ok(r, 'Env laws (wide constants)')
@@ -643,6 +693,9 @@ def run(ctx):
     n_ex = len(cases)
     cases += gen_ctors(thorough, rnd)
     n_ct = len(cases) - n_ex
+    mc_cases = gen_mc(thorough, rnd)
+    cases += mc_cases
+    ctx.cov['multichannel_cases'] = len(mc_cases)
     nr = 3000 if thorough else 300
     DENSE[0] = thorough        # the random envelopes are also evaluated near every breakpoint
     cases += gen_new_random(rnd, nr, 10 if thorough else 6)
